@@ -186,6 +186,10 @@ def resolve_anchor(loops, spec, what):
         if ln in lines:
             hits.append((name, ln))
     hits = sorted(set(hits), key=lambda x: (x[1], x[0]))
+    if spec.get("all"):
+        if not hits:
+            raise ToolError("%s: anchor /%s/ matches no loop" % (what, spec["anchor"]))
+        return [h[0] for h in hits]
     if "nth" in spec:
         if spec["nth"] < len(hits):
             return hits[spec["nth"]][0]
@@ -326,7 +330,14 @@ def build_unit(u, tier, workdir, cfg, extra_defs=(), tag="p"):
                         continue
                     raise ToolError("unwindset loop %s not in instrumented binary of %s" % (W["loop"], u["unit"]))
             else:
-                names = [resolve_anchor(loops, W, "unwindset of " + u["unit"])]
+                try:
+                    names = resolve_anchor(loops, W, "unwindset of " + u["unit"])
+                except ToolError:
+                    if W.get("optional"):
+                        continue
+                    raise
+                if not isinstance(names, list):
+                    names = [names]
             for nm in names:
                 items.append("%s:%d" % (nm, n))
         if items:
